@@ -100,6 +100,26 @@ impl dsim::Monitor for FrameLiveness {
     fn on_event(&self, e: &Event) -> Option<String> {
         let mut st = self.st.lock().unwrap();
         let t = e.tid as usize;
+        // The calling thread is unwinding out of `broadcast` (no call of the
+        // harness task does that on its own: it is the pool's code that
+        // panicked, e.g. on a failed send). Its frame — and with it the
+        // shared state — is about to go while workers may still be serving:
+        // stop at its first operation during unwinding, before anything else
+        // runs.
+        if (e.unwinding || matches!(e.kind, Ev::ThreadPanic))
+            && t == st.caller
+            && !matches!(e.kind, Ev::User(_))
+            && st.returned.get(st.cur as usize) == Some(&false)
+            && !st.returned.is_empty()
+        {
+            return Some(format!(
+                "[caller_panicked_in_broadcast] broadcast {} (n={}): the calling thread panicked out of broadcast ({} of {} task calls finished); workers may still hold a pointer into its frame",
+                st.cur,
+                st.n,
+                st.ended,
+                st.n + 1
+            ));
+        }
         match e.kind {
             Ev::User(UserEv::BroadcastBegin { j, n }) => {
                 st.grow(j);
@@ -781,8 +801,14 @@ pub fn check_c07(scn: &PoolScn, r: &RunResult, _out: &PoolOutcome) -> Vec<Violat
             "abort",
             format!("process::abort reached on sim thread {tid}"),
         )),
-        Some(Failure::Invariant { .. }) => {
-            // In-run monitors (frame liveness) belong to C06's clauses.
+        Some(Failure::Invariant { message }) => {
+            // In-run monitors (frame liveness) belong to C06's clauses —
+            // except a broadcast that ends with a panic on its caller: that
+            // history did not run to completion.
+            let vi = crate::batch::invariant_violation(message);
+            if vi.class == "caller_panicked_in_broadcast" {
+                v.push(vi);
+            }
         }
         Some(_) | None => {}
     }
